@@ -186,6 +186,17 @@ def minimise(prop, case, res, sig, budget=120, jobs=16):
     return best_case, best_res
 
 
+def _queue_model():
+    try:
+        import queue
+        import pyworkers.utils as U
+        if issubclass(U.Queue, getattr(queue, 'SimpleQueue', ())):
+            return 'pyworkers.utils.Queue is a queue.SimpleQueue (C): modelled by an atomic stand-in with C-call delivery semantics'
+        return 'pyworkers.utils.Queue is a queue.Queue: the stdlib source of queue.Queue and threading.Condition runs under the simulator (simos/stdq.py)'
+    except Exception as e:   # noqa
+        return f'queue model unknown ({type(e).__name__})'
+
+
 # ----------------------------------------------------------------------------------------- main
 def main(argv=None):
     import argparse
@@ -348,10 +359,12 @@ def write_evidence(prop, ctx, a, wall, reported):
         'new_violation_signatures': reported,
         'phases': ctx.phases,
         'seeds': {'verif_seed': a.seed, 'derivation': 'run seed = sha1(VERIF_SEED, property, phase, index)'},
-        'components_real': ['pyworkers/*.py (unmodified, all modules)', 'multiprocessing.connection.Connection framing',
-                            'ForkingPickler / pickle / copy / struct'],
-        'components_stub': ['OS: scheduler, processes, signals, unix socket pairs, TCP, clock (simos)',
-                            'PyThreadState_SetAsyncExc (pending exception raised at the next line event)',
+        'components_real': ['pyworkers/*.py (unmodified, all modules; every line a pre-emption point)',
+                            'multiprocessing.connection.Connection: the stdlib Python code (send/recv/framing), instrumented like pyworkers',
+                            'ForkingPickler / pickle / copy / struct', _queue_model()],
+        'components_stub': ['OS: scheduler, processes, signals, unix socket pairs, TCP, clock (simos; validated by the conformance suite)',
+                            'PyThreadState_SetAsyncExc (pending exception raised at modelled CPython 3.12 eval-breaker points)',
+                            'threading.Thread / Event / Lock, ctypes, os, signal, socket, time: simos facades',
                             'spawn bootstrap (__main__ re-import not executed)', 'logging disabled'],
     }
     cov.update(ctx.extra)
